@@ -9,6 +9,7 @@ import (
 	"math/big"
 	"net/http"
 	"reflect"
+	"strings"
 	"sync"
 	"testing"
 	"time"
@@ -27,7 +28,7 @@ var (
 			"gorilla/websocket backend; oracle = model queues (exactly once, in order, type and payload unchanged in both directions); polls "+
 			"are only issued while the model says a message is outstanding; non-trivial = at least one binary and one text message and a burst "+
 			"of more than 10 messages; distinct = SHA-256 of the canonical case"+
-			" Later additions: runs of 2-4 binary frames of 32 KiB-100 KB right behind each other.")
+			" Later additions: a final backend burst followed by a regular backend close (polls drain everything before reporting the close); in a quarter of the cases a neighbouring session is closed and a further one opened and used while this one is in use; runs of 2-4 binary frames of 32 KiB-100 KB right behind each other.")
 	recI = vh.NewRecorder("C11", "header-injection",
 		"JSON and non-JSON client messages {object with resource.headers object (empty, partly or fully overlapping the request headers), "+
 			"object without it, resource not an object, resource.headers not an object, array, scalar, invalid JSON, the same as binary} x 0-4 "+
@@ -73,6 +74,9 @@ type Case struct {
 	// (close frame, then waits for the peer's); the client starts polling WaitMs later and polls until the session is
 	// reported closed. Everything the backend sent, including what was still undelivered before, must arrive first.
 	Tail *Tail `json:"tail,omitempty"`
+	// Neighbours: another session is opened before this one and closed after the first operation, whereupon a third one
+	// is opened and used (one message each way); the messages of this session stay its own.
+	Neighbours bool `json:"neighbours,omitempty"`
 }
 
 type Tail struct {
@@ -156,6 +160,7 @@ func genCase(t *rapid.T) Case {
 		}
 		c.Ops = append(c.Ops, op)
 	}
+	c.Neighbours = rapid.IntRange(0, 3).Draw(t, "neighbours") == 0
 	if rapid.IntRange(0, 2).Draw(t, "hasTail") == 0 {
 		tl := &Tail{WaitMs: rapid.SampledFrom([]int{0, 0, 2, 20, 100}).Draw(t, "tailWait")}
 		k := rapid.SampledFrom([]int{0, 1, 2, 3, 5, 9, 10, 11, 12, 25}).Draw(t, "ktail")
@@ -250,6 +255,33 @@ func runCase(c *Case) vh.Outcome {
 	o := vh.Outcome{}
 	sessCtr++
 	key := fmt.Sprintf("/ws/c11-%d", sessCtr)
+	var idA, idC string
+	var bcC *shimrig.BackendConn
+	if c.Neighbours {
+		o.Classes = append(o.Classes, "other-sessions-opened-and-closed-meanwhile")
+		var ra shimrig.Result
+		idA, _, ra = r.Open(key+"-a", c.Version, nil, 10*time.Second)
+		if ra.Status != 200 {
+			o.Err = fmt.Errorf("open of the neighbouring session failed: status %d", ra.Status)
+			return o
+		}
+	}
+	neighbourStep := func() error {
+		if cr := r.Call("POST", r.ShimPath+"/close", shimrig.IDBody(idA), nil, 10*time.Second); cr.Status != 200 {
+			return fmt.Errorf("close of the neighbouring session answered %d", cr.Status)
+		}
+		var rc shimrig.Result
+		idC, bcC, rc = r.Open(key+"-c", c.Version, nil, 10*time.Second)
+		if rc.Status != 200 || bcC == nil {
+			return fmt.Errorf("open of a further session failed: status %d", rc.Status)
+		}
+		bcC.Send(shimrig.WSMsg{Data: []byte("from-the-neighbours-backend")})
+		b, _ := json.Marshal("to-the-neighbours-backend")
+		if pr := r.Call("POST", r.ShimPath+"/data", shimrig.DataBody(idC, []json.RawMessage{b}), nil, 10*time.Second); pr.Status != 200 {
+			return fmt.Errorf("data post on the further session answered %d", pr.Status)
+		}
+		return nil
+	}
 	id, bc, res := r.Open(key, c.Version, nil, 10*time.Second)
 	if res.Status != 200 || bc == nil {
 		o.Err = fmt.Errorf("open failed: status %d body %q panic %v", res.Status, head(res.Body), res.Panic)
@@ -302,7 +334,13 @@ func runCase(c *Case) vh.Outcome {
 		}
 		return nil
 	}
-	for _, op := range c.Ops {
+	for opIdx, op := range c.Ops {
+		if c.Neighbours && opIdx == 1 {
+			if err := neighbourStep(); err != nil {
+				o.Err = err
+				break
+			}
+		}
 		for _, m := range op.Msgs {
 			if m.Binary {
 				hasBin = true
@@ -420,6 +458,20 @@ func runCase(c *Case) vh.Outcome {
 		}
 		time.Sleep(2 * time.Millisecond) // a duplicate would show up right behind
 		o.Err = sameMsgs("client->server", bc.Received(), sentClient)
+	}
+	if o.Err == nil && bcC != nil {
+		// the further session got exactly its own message, and its backend's message is still waiting for it
+		for deadline := time.Now().Add(5 * time.Second); bcC.NumReceived() < 1 && time.Now().Before(deadline); {
+			time.Sleep(time.Millisecond)
+		}
+		if got := bcC.Received(); len(got) != 1 || string(got[0].Data) != "to-the-neighbours-backend" {
+			o.Err = fmt.Errorf("a further session opened after an older one was closed: its backend received %d messages instead of the one posted to it (session ids: this %q, closed %q, further %q)", len(got), id, idA, idC)
+		} else if pr := r.Call("POST", r.ShimPath+"/poll", shimrig.IDBody(idC), nil, 30*time.Second); pr.Status != 200 || !strings.Contains(string(pr.Body), "from-the-neighbours-backend") {
+			o.Err = fmt.Errorf("a further session opened after an older one was closed: its poll answered %d %q instead of its backend's message (session ids: this %q, closed %q, further %q)", pr.Status, head(pr.Body), id, idA, idC)
+		}
+	}
+	if idC != "" {
+		r.Call("POST", r.ShimPath+"/close", shimrig.IDBody(idC), nil, 5*time.Second)
 	}
 	r.Call("POST", r.ShimPath+"/close", shimrig.IDBody(id), nil, 5*time.Second)
 	o.NonTrivial = hasBin && hasText && bigBurst
